@@ -1118,6 +1118,10 @@ pub fn body(input: ParseString) -> ParseResult<Body> {
     match section(new_input.clone()) {
       Ok((input, sect)) => {
         //println!("Parsed section: {:#?}", sect);
+        // a section that consumed nothing (e.g. an unmatched section-closing glyph) would repeat forever
+        if input.cursor == new_input.cursor {
+          return Err(nom::Err::Error(ParseError::new(input, "Unexpected character")));
+        }
         sections.push(sect);
         new_input = input;
       }
